@@ -44,6 +44,9 @@ def gen_conv(rng, ver, tier):
         spec["dialog_action"] = bool(mode == "dialog" and rng.random() < 0.5)
     else:
         spec = {"ver": "v2", "k": k, "m": m, "mode": "v2", "exc": False}
+    if rng.random() < 0.4:
+        # the actions that fail also declare a parameter the runtime injects by name (llm, config, events, state, ...)
+        spec["sig"] = rng.choice(rc.rails.SIGNATURES)
     vin = []
     for i in range(k):
         opts = ["ok", "ok", "rewrite"] if (ver == "v1" and spec["in_shapes"][i] != "allowed") else ["ok"]
